@@ -126,6 +126,24 @@ def check_try_catch(db, fn, nf):
 
 
 # ---- shapes of normal::raise / raise_nested, parse_error_base, operator<< ------------------------------
+def flow_leaves(fn, expr):
+    """leaves of an expression with local variables replaced (transitively) by what flows into them: initialiser, assignments, += / append"""
+    decls = {d.get('n'): d for s2 in walk(fn.get('body'), lambda n: n.get('k') == 'Decl', []) for d in s2.get('decls', [])}
+    out = []; seen = set()
+    def add(e):
+        for lf in leaves(e):
+            if lf[0] == 'ref' and lf[1] in decls and lf[1] not in seen:
+                seen.add(lf[1])
+                add(decls[lf[1]].get('init'))
+                for n in walk(fn.get('body'), lambda n: (n.get('k') == 'bin' and n.get('op', '').endswith('=') and n['op'] not in ('==', '!=', '<=', '>=') and leaves(n.get('l'))[:1] == [('ref', lf[1])]) or
+                              (n.get('k') == 'call' and (n.get('opc') in ('+=', '=') or n.get('cn') in ('append', 'assign', 'push_back', 'insert')) and
+                               leaves((n.get('args') or [n.get('obj')])[0] if n.get('opc') else n.get('obj'))[:1] == [('ref', lf[1])]), []):
+                    add(n.get('r') if n.get('k') == 'bin' else {'k': 'x', 'args': (n.get('args') or [])[(1 if n.get('opc') else 0):]})
+            elif lf not in out: out.append(lf)
+    add(expr)
+    return out
+
+
 def check_normal_raise(db, fn):
     probs = []
     rule = ((fn.get('cls') or {}).get('a') or [{}])[0].get('s')
@@ -142,13 +160,13 @@ def check_normal_raise(db, fn):
     if not ctor: probs.append('does not throw a parse_error'); return probs
     args = ctor[0].get('args', [])
     if len(args) < 2: probs.append('parse_error is constructed from %d arguments' % len(args)); return probs
-    l0 = leaves(args[0]); l1 = leaves(args[1])
+    l0 = flow_leaves(fn, args[0]); l1 = flow_leaves(fn, args[1])
     p0 = fn['params'][0]['n'] if fn['params'] else None
     if has_msg:
         if ('ref', 'error_message') not in l0: probs.append('the rule has an error_message but the parse_error message is built from %s' % l0)
     else:
         if ('str', 'parse error matching ') not in l0 or ('call', 'demangle') not in l0: probs.append('the default message is not "parse error matching " + demangle< Rule >(); built from %s' % l0)
-        dm = walk(args[0], lambda n: n.get('k') == 'call' and n.get('cn') == 'demangle', [])
+        dm = walk(fn.get('body'), lambda n: n.get('k') == 'call' and n.get('cn') == 'demangle', [])
         if dm and (dm[0].get('cta') or [{}])[0].get('s') != rule: probs.append('the default message names %s instead of %s' % ((dm[0].get('cta') or [{}])[0].get('s'), rule))
     if l1 != [('ref', p0)]: probs.append('the position is taken from %s instead of the argument %s' % (l1, p0))
     return probs
